@@ -59,6 +59,7 @@ class FaultFS:
         self.log = []
         self.plan = {}
         self.fired = set()
+        self.match = None  # (kind, substring of the relative path, fault): applies once, to the first matching op
         self._saved = None
 
     def under(self, p):
@@ -79,6 +80,9 @@ class FaultFS:
     def _op(self, kind, rel):
         idx = len(self.log)
         self.log.append((kind, rel))
+        if self.match and self.match[0] == kind and self.match[1] in rel:
+            self.plan[idx] = self.match[2]
+            self.match = None
         f = self.plan.get(idx)
         if f is not None and f not in ("crash_mid_write", "err_write"):
             self.fired.add(idx)
